@@ -14,6 +14,7 @@ chapters 2 (RV32I), 7 (M) and 16 (C); independent of ppci's encoders (DESIGN.md 
                                          m.ret64() = a0 | a1 << 32.
     m.run(pc, until=SENTINEL)            the bare fetch/execute loop
     m.steps, m.executed                  instruction count / set of executed (encoding, length)
+    m.hooks[addr] = f(machine)           host function: when pc reaches addr, f runs and execution resumes at ra
 
 Exceptions (all subclasses of EmuError): StepLimit, IllegalInstruction(pc, encoding), MisalignedFetch(pc),
 MemoryFault(addr, size, kind), Trap (ecall / ebreak reached).  Data accesses may be misaligned (counted in
@@ -328,6 +329,7 @@ class Machine:
         self._dcache = {}
         self._last = None
         self.stack_top = None
+        self.hooks = {}  # address -> callable(machine): host function called when pc gets there; then pc = ra
 
     # -- memory ------------------------------------------------------------
     def map(self, addr, size, data=None, name=None):
@@ -440,8 +442,14 @@ class Machine:
         rvc = self.rvc
         steps = 0
         pc &= M32
+        hooks = self.hooks
         try:
             while pc != until:
+                if hooks and pc in hooks:
+                    self.pc = pc
+                    hooks[pc](self)
+                    pc = regs[1] & ~1
+                    continue
                 if pc & 1 or (not rvc and pc & 3):
                     raise MisalignedFetch(pc)
                 if steps >= limit:
